@@ -18,6 +18,11 @@
 (*                    e       : -e  (-1 = not given)     sum : -s                                      *)
 (*                    fops    : the -f / +f operations in effect order (FilterList.tla), <<>> = none  *)
 (*                    seg     : -segment (default CODE)]]                                              *)
+(* HEADER FORM: a data item of a case may carry  short |-> TRUE : the record stands in the file with   *)
+(* the one-byte header $01..$7f (= cpu) as PBIND / ALINK write CODE records; such an item has NO seg /  *)
+(* gran field of its own: both are implied (manual: "the target segment is fixed to CODE and the        *)
+(* granularity is implicitly given by the processor type").  ReadRecordHeader (operational, shaped like *)
+(* toolutils.c) / DRead (declarative) turn the items of the file into the records the program works on. *)
 (* An observation / model output  [rc |-> exit status, bytes |-> target file, warn |-> overlap warning]*)
 (* Bounds: all addresses (offset included) < 2^24; 32-bit wrap-around is not modelled except for the   *)
 (* `start + 0 - 1` of an empty record (see Wild).                                                      *)
@@ -47,8 +52,27 @@ LaneBelow(l, x)     == (x \div 4) * (4 \div LaneDiv(l)) + Cardinality({y \in 0..
 LaneCount(l, lo, hi) == LaneBelow(l, hi) - LaneBelow(l, lo)
 
 -------------------------------------------------------------------------------
+\* header form of an item as it stands in the file (see the module comment)
+IsShort(it) == IsData(it) /\ "short" \in DOMAIN it /\ it.short
+
+\* ---- toolutils.c Granularity(Header, Segment): the switch, case by case.  AVR ($3b) and PDK13..16 ($1a..$1d)
+\* are the families whose value depends on the SEGMENT as well.
+Granularity(cpu, seg) ==
+  CASE cpu \in {9, 118, 125} -> 4
+    [] cpu \in {54, 112, 113, 114, 116, 117, 119, 18, 109} -> 2
+    [] cpu \in {59, 26, 27, 28, 29} -> (IF seg = SegCode THEN 2 ELSE 1)
+    [] OTHER -> 1
+\* ---- toolutils.c ReadRecordHeader(), branch `Header <= 0x7f`: *CPU = Header; *Segment = SegCode;
+\* *Gran = Granularity(*CPU, *Segment) -- with the segment just assigned, not the one of the record before.
+\* MeasureFile and ProcessFile both read every record through it.
+ReadRecordHeader(it) ==
+  IF ~IsShort(it) THEN it
+  ELSE LET cpu == it.cpu
+           seg == SegCode
+       IN [k |-> "D", cpu |-> cpu, seg |-> seg, gran |-> Granularity(cpu, seg), start |-> it.start, data |-> it.data]
+
 \* argv: files in order, every record start shifted by the (offset) suffix of its file
-Shift(f) == [i \in 1..Len(f.items) |-> IF IsData(f.items[i]) THEN [f.items[i] EXCEPT !.start = @ + f.off]
+Shift(f) == [i \in 1..Len(f.items) |-> IF IsData(f.items[i]) THEN [ReadRecordHeader(f.items[i]) EXCEPT !.start = @ + f.off]
                                                              ELSE f.items[i]]
 Flat(c) == FoldLeft(LAMBDA acc, f : acc \o Shift(f), <<>>, c.files)
 
@@ -171,6 +195,21 @@ ChunksApart(used) == \A i, j \in 1..Len(used) : i # j => ~Overlap(used[i].s, use
 (***************************************************************************)
 (* Part 2: what the property demands                                       *)
 (***************************************************************************)
+\* the records a file describes, from doc/file-formats.md alone: a record with a header $01..$7f is a record of that
+\* processor in the CODE segment with the granularity the processor type implies (CodeFileBytes!ImplicitGran: the
+\* manual names no table; a family's value may depend on the segment, the segment here is always CODE), whatever
+\* records stand before it in the file; a record with the long header is what its fields say.
+CFB == INSTANCE CodeFileBytes
+DRead(it) == IF ~IsShort(it) THEN it
+             ELSE [k |-> "D", cpu |-> it.cpu, seg |-> SegCode, gran |-> CFB!ImplicitGran(it.cpu, SegCode),
+                   start |-> it.start, data |-> it.data]
+DShift(f) == [i \in 1..Len(f.items) |-> IF IsData(f.items[i]) THEN [DRead(f.items[i]) EXCEPT !.start = @ + f.off]
+                                                              ELSE f.items[i]]
+DFlat(c) == FoldLeft(LAMBDA acc, f : acc \o DShift(f), <<>>, c.files)
+\* the short form exists for the processor ids $01..$7f only
+FormsOK(c) == \A i \in 1..Len(c.files) : \A j \in 1..Len(c.files[i].items) :
+                 IsShort(c.files[i].items[j]) => c.files[i].items[j].cpu \in 1..127
+
 DFilterOK(o, r) == FPasses(o.fops, r.cpu)      \* "-f: list of record headers to copy", as built by the -f / +f sequence
 \* selected, non-empty records (an empty record places no byte and uses no address)
 DSel(o, items) == {i \in DataIdx(items) : DFilterOK(o, items[i]) /\ items[i].seg = o.seg /\ Len(items[i].data) > 0}
@@ -178,7 +217,7 @@ DGran(o, items) == IF DSel(o, items) = {} THEN 1 ELSE items[Min(DSel(o, items))]
 DUniform(o, items) == \A i, j \in DSel(o, items) : items[i].gran = items[j].gran
 DStart(o, items) == IF o.rs >= 0 THEN o.rs ELSE Min({items[i].start : i \in DSel(o, items)})     \* lowest used
 DStop(o, items)  == IF o.re >= 0 THEN o.re ELSE Max({LastAddr(items[i]) : i \in DSel(o, items)}) \* highest used
-DEntry(c) == IF c.o.e >= 0 THEN c.o.e ELSE FirstEntry(Flat(c))
+DEntry(c) == IF c.o.e >= 0 THEN c.o.e ELSE FirstEntry(DFlat(c))
 
 \* lanes as the manual words them: EVEN/ODD address parity, BYTEn = 4k+n, WORD0/1 = lower/upper 16-bit word
 Period(l)   == IF l = "ALL" THEN 1 ELSE IF l \in {"EVEN", "ODD"} THEN 2 ELSE 4
@@ -199,9 +238,9 @@ LaneAddr(l, base, i) == LET k    == Len(LaneOffs(l))
 \* phase; the manual is silent only about windows with a partial period.
 Definite(c) ==
   LET o == c.o
-      items == Flat(c)
+      items == DFlat(c)
       G == DGran(o, items)
-  IN /\ WellFormed(items) /\ DUniform(o, items)
+  IN /\ FormsOK(c) /\ WellFormed(items) /\ DUniform(o, items)
      /\ (o.rs < 0 \/ o.re < 0) => DSel(o, items) # {}
      /\ DStart(o, items) <= DStop(o, items)
      /\ ((DStop(o, items) - DStart(o, items) + 1) * G) % Period(o.lane) = 0
@@ -216,7 +255,7 @@ CommonAddr(r1, r2, lo, hi) == Max2(Max2(r1.start, r2.start), lo) <= Min2(Min2(La
 
 Allowed(c, obs) ==
   LET o == c.o
-      items == Flat(c)
+      items == DFlat(c)
       S == DSel(o, items)
       G == DGran(o, items)
       A == DStart(o, items)
